@@ -100,7 +100,10 @@ def grep_forbidden():
             if not fn.endswith('.lean'):
                 continue
             p = os.path.join(root, fn)
-            src = strip_comments(open(p).read())
+            raw = open(p).read()
+            if not FORBIDDEN.search(raw):
+                continue        # nothing to find even with the comments in
+            src = strip_comments(raw)
             for m in FORBIDDEN.finditer(src):
                 hits.append(f'{os.path.relpath(p, LEAN)}: {m.group(0).strip()}')
     return hits
